@@ -151,3 +151,21 @@ PROPS["C09"] = dict(
     assumptions=COMMON_ASSUME[:1] + ["events caused by the harness itself (argument temporaries, e.g. the backing arrays of initializer lists) are not faulted: g++ 12 and clang 14 do not destroy already built backing-array temporaries when a nested braced list throws while being materialised",
                  "known findings tolerated by symptom (see known_findings.txt): block leak when an element throws inside a constructor; rows not rolled back in iterator-pair / nested-list construction for D >= 2"],
 )
+
+PROPS["C10"] = dict(
+    targets=[dict(name="C10", src="vp/props/C10.cpp", maxlen=3 + 8*8)],
+    quick=dict(cases=2500, floor=20000),
+    thorough=dict(cases=50000, floor=400000, fuzz=dict(time=300)),
+    level="exploration",
+    level_text=("Stateful testing over allocator configurations: the eight propagate_on_container_{copy_assignment,move_assignment,swap} combinations of a stateful observing allocator "
+                "(instance ids 1/2 per pool slot, generated), an always-equal variant, and pmr arrays on two tracking memory resources plus a tracking default resource; generated histories "
+                "of plain and allocator-extended copy/move construction, copy/move assignment, assignment from views, lists and ranges, swap, reextent. After every step get_allocator() has "
+                "the identity the container requirements prescribe, every array's block was produced by its own allocator, and every deallocate happens on an allocator equal to the allocating "
+                "one (per-instance ledger). Bounded exploration."),
+    technique="stateful testing over generated allocator-trait configurations with a per-instance allocation ledger and an allocator-identity model (rapidcheck + libFuzzer)",
+    rule=("case = configuration (11 variants) x allocator ids of the 4 slots + up to 8 history records; oracle = identity model (select_on_container_copy_construction on copy construction, "
+          "replacement exactly per trait on copy/move assignment and swap, supplied allocator for allocator-extended constructors) + ledger. swap between unequal non-propagating allocators is "
+          "UB for every standard container and excluded (counted). non-trivial = slots with unequal allocators and >= 2 operations; distinct = hash of decoded history text"),
+    assumptions=COMMON_ASSUME[:1] + ["assignments that build an internal temporary (initializer list, iterator pair, view/convertible array of other extents) may leave the temporary's default-constructed allocator when propagate_on_container_move_assignment is true; no trait covers these assignments, both outcomes are accepted and the storage must agree with the reported allocator",
+                 "allocator-extended move construction with an unequal allocator is excluded and counted (recorded known finding)"],
+)
